@@ -2957,6 +2957,24 @@ func solve(st *fstate, clauses []Clause, b Bind) solveResult {
 						}
 					}
 				}
+				// the recorded definition of the variable, with helper calls inside it replaced by the values they returned and
+				// temporaries by their definitions: def(s, NewSigner(keyOf(k), opts())) is def(s, NewSigner(SigningKey{..}, ..))
+				if lhs.K == "var" {
+					if alts == nil {
+						alts = stateAlts(st)
+					}
+					if len(alts) > 0 {
+						for _, key := range keys {
+							d := st.facts[key]
+							if (d.S != "def" && d.S != "defx") || len(d.A) < 2 || d.A[0].Key() != lk || len(d.A) != len(p.A) {
+								continue
+							}
+							for _, x := range rewriteWith(alts, d.A[1], 32, true) {
+								virts = append(virts, &Term{K: "fact", S: "def", A: append([]*Term{lhs, x}, d.A[2:]...)})
+							}
+						}
+					}
+				}
 				// a variable defined by an interpreted helper call whose value was recorded: def(v, H(..)) + eq(H(..), V) gives def(v, V)
 				if lhs.K == "var" {
 					for _, key := range keys {
